@@ -32,6 +32,7 @@ type scenario struct {
 // A call that panics or does not return (a lock left held) ends the scenario: both are reported as "panic": true, a hang
 // additionally as "hang": true.  The allocator is mutex-protected and O(intervals): three seconds is for ever.
 var hung bool
+var hangs int // calls that never returned so far: after two the run stops (every one costs three seconds and a goroutine)
 
 func guarded(f func()) (panicked bool) {
 	done := make(chan bool, 1)
@@ -44,6 +45,7 @@ func guarded(f func()) (panicked bool) {
 		return p
 	case <-time.After(3 * time.Second):
 		hung = true
+		hangs++
 		return true
 	}
 }
@@ -109,6 +111,9 @@ func main() {
 			}
 			n++
 			run(r, n, s)
+			if hangs >= 2 {
+				return
+			}
 		}
 	}
 	seed, _ := strconv.ParseInt(os.Getenv("VERIF_SEED"), 10, 64)
@@ -131,6 +136,9 @@ func main() {
 		}
 		n++
 		run(r, n, s)
+		if hangs >= 2 {
+			return
+		}
 	}
 	// production-size range: the trace would be large if every call were logged, and
 	// TLC sets of 65k elements are slow; these runs are checked by the same rule in
